@@ -85,6 +85,7 @@ type Exec struct {
 	oldMem      *State // memory snapshot used for old(*p) while evaluating a callee contract
 	cutsDone    map[*CutSpec]bool
 	cutFacts    []int
+	assertsDone map[*AssertSpec]bool
 	arrayCells  map[*Cell]int
 	arrayElem   map[*Cell]MT
 }
@@ -454,7 +455,7 @@ func newExec(w *World, fn *ssa.Function, c *Contract, split *int) *Exec {
 		loops: map[*ssa.BasicBlock]*loopInfo{}, backEdge: map[[2]*ssa.BasicBlock]bool{},
 		kindCount: map[string]int{}, callCount: map[string]int{}, srcLines: map[string][]string{},
 		usedWaivers: map[*Waiver]bool{}, splitVal: split,
-		arrayCells: map[*Cell]int{}, arrayElem: map[*Cell]MT{}, cutsDone: map[*CutSpec]bool{}}
+		arrayCells: map[*Cell]int{}, arrayElem: map[*Cell]MT{}, cutsDone: map[*CutSpec]bool{}, assertsDone: map[*AssertSpec]bool{}}
 	x.vc = newVC(x.name, mode)
 	if split != nil {
 		x.suffix = fmt.Sprintf("/%s=%d", c.Split.Var, *split)
